@@ -180,7 +180,7 @@ theorem agg_eval (o : Oracles) (db : Db) (env : Env) (fn : AggFn) (hfn : fn ≠ 
       (fun A => rview (grow o env (aggCols fn) (A.map (qualify "lra_main"))))
       (fun B => Pt.view ⟨(B.head?.map (·.key)).getD .null, (B.head?.map (·.labels)).getD .null, (B.head?.map (·.ts)).getD 0,
         aggValD fn (B.map (·.value))⟩)
-      (fun A B hne hA _ hAB => agg_group_row o env fn hfn A (fun r hr => h.std r (hA r hr)) B hne hAB)
+      (fun A B hne hA _ _ hAB => agg_group_row o env fn hfn A (fun r hr => h.std r (hA r hr)) B hne hAB)
     rw [List.map_map] 
     simp only [Function.comp_def] at this ⊢
     rw [this, aggCore_eq fn hfn]
